@@ -6,7 +6,7 @@ set -u
 SRC=$1; ID=$2; shift 2
 DST=/verif/seeded/$ID
 mkdir -p "$DST"
-cp "$SRC/patch.diff" "$SRC/demo.py" "$SRC/meta.json" "$DST/" || exit 2
+[ "$(realpath "$SRC")" = "$(realpath "$DST")" ] || cp "$SRC/patch.diff" "$SRC/demo.py" "$SRC/meta.json" "$DST/" || exit 2
 D=$(mktemp -d /tmp/sedseed.XXXXXX)
 git -C /repo worktree add --detach "$D" HEAD >/dev/null 2>&1 || { echo "worktree failed"; exit 2; }
 run_demo() { ( cd "$D" && mkdir -p seed_out && cp "$DST/demo.py" seed_out/demo.py && PYTHONPATH="$D" PYTHONDONTWRITEBYTECODE=1 timeout 300 /venv/bin/python -W ignore seed_out/demo.py >/tmp/seed_demo.out 2>&1; echo $? ); }
